@@ -48,13 +48,11 @@ var (
 )
 
 func GetCodecManager() *CodecManager {
-	if codecManager == nil {
-		onceCodecManager.Do(func() {
-			codecManager = &CodecManager{
-				codecMap: make(map[CodecType]map[message.MessageType]Codec, 0),
-			}
-		})
-	}
+	onceCodecManager.Do(func() {
+		codecManager = &CodecManager{
+			codecMap: make(map[CodecType]map[message.MessageType]Codec, 0),
+		}
+	})
 	return codecManager
 }
 
